@@ -1,9 +1,12 @@
 (* Props/C15.v — property C15: array, object and string functions obey their sequence / map / string contracts under any
-   history of calls.  ONLY statements; every proof is `exact <lemma of Proofs/C15.v>`.
+   history of calls.  ONLY statements; every proof is `exact <lemma of Proofs/C15.v or Proofs/C15hist*.v>`; the abstract
+   machine of the history theorems is Proofs/C15spec.v (definitions only).
    The model (Model/LibSeq.v) validates arguments with ONE generic function over the table REGENERATED from library.py
    (Gen/ArgSpecs.v); re.escape's special characters, urllib's always-safe bytes and the safe= sets are regenerated too. *)
 From Coq Require Import ZArith List.
 From BS Require Import Model.Base Model.Num Model.LibVal Gen.ArgSpecs Model.LibSeq Proofs.C15.
+From BS Require Import Proofs.C15spec Proofs.C15histd Proofs.C15histe Proofs.C15histf.
+Import ListNotations.
 Local Open Scope Z_scope.
 
 (* ---- SHAPE of every modelled call: the heap is untouched, or the cell of the FIRST argument is overwritten (only by a
@@ -53,11 +56,8 @@ Example C15_wrong_type_nonvacuous : forall h l, exists r,
   lib (U "arrayGet") [VArr l; VBool true] h = (r, h) /\ r = LArgsErr VNull.
 Proof. exact lib_wrong_type_bool_index. Qed.
 
-(* HISTORY (partial, see notes/C15.md): after any history, a container never passed as first argument is unchanged;
-   heap and variables only grow.
-   Full statement of the design (not proved as one theorem):
-     forall ops h0, abs (fold_left run_op ops h0) = fold_left spec_op ops (abs h0)
-   what is proved instead: this frame over histories + the per-call refinement theorems below. *)
+(* HISTORY-FRAME (over ANY modelled function, kept from the first round): after any history, a container never passed as
+   first argument is unchanged; heap and variables only grow.  The refinement shape of the design is C15_history below. *)
 Theorem C15_history_frame_partial : forall ops st st', run_ops ops st = Some st' ->
   (length (snd st) <= length (snd st'))%nat /\ (exists e2, fst st' = fst st ++ e2 /\ length e2 = length ops)
   /\ forall l, (l < length (snd st))%nat -> ~ In l (touched ops st) -> hget (snd st') l = hget (snd st) l.
@@ -69,6 +69,99 @@ Example C15_copy_is_independent : forall ops e h l xs st',
   lib (U "arrayCopy") [VArr l] h = (LOk (VArr (length h)), h1) /\
   (run_ops ops (e, h1) = Some st' -> ~ In (length h) (touched ops (e, h1)) -> hget (snd st') (length h) = Some (CArr xs)).
 Proof. exact copy_is_independent. Qed.
+
+(* ====================================================================== HISTORY: refinement to an abstract machine
+   Design statement:  forall ops h0, abs (fold_left run_op ops h0) = fold_left spec_op ops (abs h0).
+   The abstract machine (Proofs/C15spec.v): state `astate` = finite map  reference -> ASeq (pure list of values) | AMap (pure
+   string-keyed association list);  `spec_call f args m` = plain list / association-list operations (no argument table, no
+   float guards, no Python index arithmetic);  `abs : heap -> astate`.  OPS = the 20 functions of `spec_table`. *)
+Example C15_OPS : map fst spec_table =
+  [U "arrayNew"; U "arrayNewSize"; U "arrayCopy"; U "arrayLength"; U "arrayGet"; U "arraySet"; U "arrayDelete"; U "arrayPush";
+   U "arrayPop"; U "arrayShift"; U "arrayExtend"; U "arraySlice"; U "objectNew"; U "objectCopy"; U "objectKeys"; U "objectGet";
+   U "objectHas"; U "objectSet"; U "objectDelete"; U "objectAssign"].
+Proof. reflexivity. Qed.
+
+(* STEP: for every function of OPS, EVERY argument list (any length, any types, self-aliasing, dangling references) and every
+   heap, the model's call seen abstractly (`abs_call`: result tag + value, abstraction of the new heap; None if the model is
+   stuck) IS the abstract operation on the abstracted heap.  Failure cases included: SFail carries the documented failure value
+   and the abstract state is unchanged. *)
+Theorem C15_history_step : forall f, in_OPS f = true -> forall args h, abs_call (lib f args h) = spec_call f args (abs h).
+Proof. exact spec_call_refines. Qed.
+Print Assumptions C15_history_step.
+
+(* HISTORY: abstraction commutes with running any list of statements whose calls are OPS calls (`r_k = f(args)`, `r_k = v_n`,
+   `r_k = literal`), from ANY state.  The state of both machines includes the variable list, so the results of all calls agree
+   too.  No well-formedness hypothesis: an ill-formed state is stuck (None) on both sides. *)
+Theorem C15_history : forall ops s, forallb op_in_OPS ops = true ->
+  abs_st (fold_left run_op ops s) = fold_left spec_step ops (abs_st s).
+Proof. exact history_refines_gen. Qed.
+Print Assumptions C15_history.
+
+(* WELL-FORMED histories never get stuck.  `wf_state`: every reference held by a variable or stored in a container is bound to
+   a cell of the right kind.  `wf_hist`: each statement, in the state it runs in, calls a function of OPS with arguments that
+   are existing variables, scalars, or references of the CURRENT heap (boolean, threaded through the run; success of the run
+   is a conclusion).  Then the run completes with one result per statement, well-formedness is preserved, the heap only
+   grows, and the abstract run completes with the SAME results and the abstraction of the final heap. *)
+Theorem C15_history_results : forall ops e h, wf_state (e, h) = true -> wf_hist ops (e, h) = true ->
+  exists rs h', run_ops ops (e, h) = Some (e ++ rs, h') /\ spec_run ops (e, abs h) = Some (e ++ rs, abs h')
+                /\ length rs = length ops /\ wf_state (e ++ rs, h') = true /\ (length h <= length h')%nat.
+Proof. exact history_results. Qed.
+Print Assumptions C15_history_results.
+(* a purely syntactic sufficient condition: variables refer to earlier statements, literals are scalars *)
+Theorem C15_history_wf_syntactic : forall ops n e h, wf_syn n ops = true -> (n <= length e)%nat -> wf_hist ops (e, h) = true.
+Proof. exact wf_syn_hist. Qed.
+Print Assumptions C15_history_wf_syntactic.
+(* the abstract machine alone: on a well-formed abstract state with well-formed arguments every OPS call is defined and does
+   one of three things (nothing | replace the contents of one bound reference by a cell of the same kind | bind the next
+   reference), with a well-formed result *)
+Theorem C15_spec_machine_total : forall f, in_OPS f = true -> forall args m, awf m = true -> forallb (aval_ok m) args = true ->
+  exists r m', spec_call f args m = Some (r, m') /\ outcome m r m'.
+Proof. exact spec_call_good. Qed.
+Print Assumptions C15_spec_machine_total.
+
+(* self-aliasing calls: arrayExtend(a, a) doubles a, objectAssign(o, o) is dict_update of o with itself *)
+Example C15_self_extend : forall m l xs, alookup m l = Some (ASeq xs) ->
+  spec_call (U "arrayExtend") [VArr l; VArr l] m = Some (SOk (VArr l), aupdate m l (ASeq (xs ++ xs))).
+Proof. exact spec_self_extend. Qed.
+Example C15_self_assign : forall m l kv, alookup m l = Some (AMap kv) ->
+  spec_call (U "objectAssign") [VObj l; VObj l] m = Some (SOk (VObj l), aupdate m l (AMap (dict_update kv kv))).
+Proof. exact spec_self_assign. Qed.
+
+(* non-vacuity: a 14-statement history with an alias (b = a), a self-extend, a float-spelled bound, a reference stored inside
+   another array and inside an object, a self-assign, an out-of-range read (documented failure value null), a read through the
+   object, and a wrong-typed call; both machines evaluated by vm_compute *)
+Definition c15_i (z : Z) : arg := ALit (VNum (NInt z)).
+Definition c15_hist : list op :=
+  [ OCall (U "arrayNew") [c15_i 1; c15_i 2; c15_i 3];                                  (* v0 = a = [1,2,3] *)
+    OAlias 0;                                                                           (* v1 = b = a *)
+    OCall (U "arrayPush") [AVar 1; c15_i 4];                                            (* push through the alias *)
+    OCall (U "arrayExtend") [AVar 0; AVar 0];                                           (* a = a ++ a *)
+    OCall (U "arraySlice") [AVar 0; c15_i 1; ALit (VNum (NFlt (Z_to_sf 3)))];           (* v4 = c = fresh [2,3] *)
+    OCall (U "arraySet") [AVar 4; c15_i 0; AVar 1];                                     (* c[0] = a (a reference inside c) *)
+    OCall (U "objectNew") [ALit (VStr (U "k")); AVar 1; ALit (VStr (U "n"))];           (* v6 = o = {k: a, n: null} *)
+    OCall (U "objectAssign") [AVar 6; AVar 6];                                          (* o = o | o *)
+    OCall (U "arrayPop") [AVar 1];                                                      (* 4 *)
+    OCall (U "arrayGet") [AVar 0; c15_i 7];                                             (* out of range now: null *)
+    OCall (U "arrayLength") [AVar 0];                                                   (* 7 *)
+    OCall (U "objectGet") [AVar 6; ALit (VStr (U "k"))];                                (* v11 = a, read through o *)
+    OCall (U "arrayShift") [AVar 11];                                                   (* 1; a = [2,3,4,1,2,3] *)
+    OCall (U "arrayPop") [c15_i 5] ].                                                   (* wrong type: null, nothing changes *)
+Definition c15_final_env : env :=
+  [VArr 0%nat; VArr 0%nat; VArr 0%nat; VArr 0%nat; VArr 1%nat; VArr 0%nat; VObj 2%nat; VObj 2%nat;
+   VNum (NInt 4); VNull; VNum (NInt 7); VArr 0%nat; VNum (NInt 1); VNull].
+Definition c15_final_heap : heap :=
+  [CArr [VNum (NInt 2); VNum (NInt 3); VNum (NInt 4); VNum (NInt 1); VNum (NInt 2); VNum (NInt 3)];
+   CArr [VArr 0%nat; VNum (NInt 3)];
+   CObj [(U "k", VArr 0%nat); (U "n", VNull)]].
+Example C15_history_nonvacuous :
+  wf_state ([], []) = true /\ wf_syn 0 c15_hist = true /\ forallb op_in_OPS c15_hist = true
+  /\ run_ops c15_hist ([], []) = Some (c15_final_env, c15_final_heap)
+  /\ spec_run c15_hist ([], abs []) = Some (c15_final_env, abs c15_final_heap)
+  /\ abs c15_final_heap =
+       [(0%nat, ASeq [VNum (NInt 2); VNum (NInt 3); VNum (NInt 4); VNum (NInt 1); VNum (NInt 2); VNum (NInt 3)]);
+        (1%nat, ASeq [VArr 0%nat; VNum (NInt 3)]);
+        (2%nat, AMap [(U "k", VArr 0%nat); (U "n", VNull)])].
+Proof. vm_compute. repeat split; reflexivity. Qed.
 
 (* REFINEMENT to the pure list / map specification, per call, for ANY spelling of the index (`integral n z`) *)
 Theorem C15_arrayGet : forall h l xs n z v, hget h l = Some (CArr xs) -> integral n z -> 0 <= z < len xs ->
